@@ -337,6 +337,12 @@ func c48Send(t c48T, env *c48Env, version uint, code uint64, payload []byte) (ou
 	return out
 }
 
+// c48WireDecode decodes a request payload the way p2p.Msg.Decode does (one value
+// from a size-limited stream; bytes after the first value are not looked at).
+func c48WireDecode(payload []byte, val interface{}) error {
+	return rlp.NewStream(bytes.NewReader(payload), uint64(len(payload))).Decode(val)
+}
+
 func c48Cap(b uint64) uint64 {
 	if b > softResponseLimit {
 		return softResponseLimit
@@ -370,7 +376,7 @@ func c48Judge(t c48T, env *c48Env, code uint64, payload []byte, out c48Outcome) 
 	switch code {
 	case GetAccountRangeMsg:
 		var req GetAccountRangePacket
-		if err := rlp.DecodeBytes(payload, &req); err != nil {
+		if err := c48WireDecode(payload, &req); err != nil {
 			if out.err == nil {
 				t.Fatalf("undecodable GetAccountRange %x was answered", payload)
 			}
@@ -389,7 +395,7 @@ func c48Judge(t c48T, env *c48Env, code uint64, payload []byte, out c48Outcome) 
 		return c48JudgeAccounts(t, env, &req, &res)
 	case GetStorageRangesMsg:
 		var req GetStorageRangesPacket
-		if err := rlp.DecodeBytes(payload, &req); err != nil {
+		if err := c48WireDecode(payload, &req); err != nil {
 			if out.err == nil {
 				t.Fatalf("undecodable GetStorageRanges %x was answered", payload)
 			}
@@ -408,7 +414,7 @@ func c48Judge(t c48T, env *c48Env, code uint64, payload []byte, out c48Outcome) 
 		return c48JudgeStorage(t, env, &req, &res)
 	case GetByteCodesMsg:
 		var req GetByteCodesPacket
-		if err := rlp.DecodeBytes(payload, &req); err != nil {
+		if err := c48WireDecode(payload, &req); err != nil {
 			if out.err == nil {
 				t.Fatalf("undecodable GetByteCodes %x was answered", payload)
 			}
@@ -427,7 +433,7 @@ func c48Judge(t c48T, env *c48Env, code uint64, payload []byte, out c48Outcome) 
 		return c48JudgeCodes(t, env, &req, &res)
 	case GetTrieNodesMsg:
 		var req GetTrieNodesPacket
-		if err := rlp.DecodeBytes(payload, &req); err != nil {
+		if err := c48WireDecode(payload, &req); err != nil {
 			if out.err == nil {
 				t.Fatalf("undecodable GetTrieNodes %x was answered", payload)
 			}
@@ -1557,7 +1563,7 @@ func TestVerifC48Serve(t *testing.T) {
 				if code == GetStorageRangesMsg {
 					// a mutated request may re-create a known trigger: re-apply the gate
 					var req GetStorageRangesPacket
-					if rlp.DecodeBytes(payload, &req) == nil {
+					if c48WireDecode(payload, &req) == nil {
 						if m, _ := env.lookupRoot(req.Root); m != nil {
 							c48AvoidKnown(&req, m, st)
 							payload, _ = rlp.EncodeToBytes(&req)
@@ -1720,7 +1726,7 @@ func FuzzVerifC48Wire(f *testing.F) {
 		payload := data[1:]
 		if code == GetStorageRangesMsg {
 			var req GetStorageRangesPacket
-			if rlp.DecodeBytes(payload, &req) == nil {
+			if c48WireDecode(payload, &req) == nil {
 				if m, _ := env.lookupRoot(req.Root); m != nil {
 					c48AvoidKnown(&req, m, nil)
 					payload, _ = rlp.EncodeToBytes(&req)
